@@ -13,7 +13,7 @@
 (* events: [ev:"case", case, faulty] | [ev:"run", case, run, mode] |                  *)
 (*         [ev:"next", case, run, i, res, draws, vars] | [ev:"endrun", steps] *)
 (*   res   = [k: "line"|"opts"|"end"|"error"|"panic", node, text, opts]       *)
-(*   draws = <<[var, kind: "dice"|"range"|"random", a, b, v, ok, tok], ...>>  *)
+(*   draws = <<[var, kind: "dice"|"range"|"random", a, b, den, v, ok, tok], ..>> *)
 (*           dice/range: v the value (ok = it is an integer), bounds a..b;    *)
 (*           random: v = floor(value * 2^30) (-1 if negative, 2^30 if >= 1)   *)
 (*   vars  = <<[n, t, tok], ...>>  variable contents after the call           *)
@@ -37,8 +37,10 @@ Obs(e) == [res |-> e.res, draws |-> e.draws, vars |-> e.vars]
 \* the range contracts of the property
 InRange(d) ==
   /\ d.ok
-  /\ CASE d.kind = "dice"   -> 1 <= d.v /\ d.v <= d.b         \* integer in [1, n]
-       [] d.kind = "range"  -> d.a <= d.v /\ d.v <= d.b       \* integer in [a, b]
+  \* bounds cross in units of 1/den (random_range(0.5, 1.5): a = 1, b = 3, den = 2), so that
+  \* bounds that are not whole numbers are judged exactly: the value is an integer BETWEEN them
+  /\ CASE d.kind = "dice"   -> 1 <= d.v /\ d.v * d.den <= d.b              \* integer in [1, n]
+       [] d.kind = "range"  -> d.a <= d.v * d.den /\ d.v * d.den <= d.b    \* integer in [a, b]
        [] d.kind = "random" -> 0 <= d.v /\ d.v < 1073741824   \* 0 <= value < 1
        [] OTHER -> FALSE
 BadDraws(e) == {i \in 1..Len(e.draws) : ~InRange(e.draws[i])}
